@@ -73,9 +73,52 @@ def enc_cube(a):
     return out
 
 
-def nparr(a):
-    return np.array([[float(Fraction(v)) for v in row] for row in a]) if not is3(a) else \
+def nparr(a, dtype=None):
+    x = np.array([[float(Fraction(v)) for v in row] for row in a]) if not is3(a) else \
         np.array([[[float(Fraction(v)) for v in row] for row in sl] for sl in a])
+    return x if dtype is None else x.astype(np.dtype(dtype))
+
+
+# dtypes an image or a mask can legitimately have, with the value range the generators draw from
+DTYPES = {'uint8': (0, 255), 'uint16': (0, 65535), 'int8': (-128, 127), 'bool': (0, 1),
+          'float32': (-4, 9), 'int32': (-1000, 1000), 'int64': (-4, 9)}
+NARROW = {'uint8': 8, 'uint16': 16, 'int8': 8, 'bool': 1}
+
+
+def mk_input(c):
+    """the object handed to lentil for the array argument: an ndarray of the case's dtype (default
+    float64), or the nested list itself (argument form 'list': the functions take array_like)"""
+    if c.get('form') == 'list':
+        return [list(map(int, row)) for row in c['a']] if not is3(c['a']) else \
+            [[list(map(int, row)) for row in sl] for sl in c['a']]
+    return nparr(c['a'], c.get('dtype'))
+
+
+def seq_arg(c, v):
+    """a shape / shift argument in the case's argument form: tuple (default), list or ndarray"""
+    f = c.get('argform')
+    if f == 'list':
+        return list(v)
+    if f == 'array':
+        return np.array(v)
+    return tuple(v)
+
+
+def unchanged(x, c):
+    """the caller's array still holds the case's values after the call"""
+    if isinstance(x, list):
+        return x == mk_input(c)
+    return bool(np.array_equal(x, nparr(c['a'], c.get('dtype'))))
+
+
+def fresh_lentil():
+    """a fresh interpreter state for lentil: every lentil module is executed again, so module-level
+    caches, memoised grids and the like start empty"""
+    import sys
+    for k in list(sys.modules):
+        if k == 'lentil' or k.startswith('lentil.'):
+            del sys.modules[k]
+    return C.import_lentil()
 
 
 def tolist(x):
@@ -312,22 +355,146 @@ def gen_hexseg(rng, n, maxrings):
                'rotate': rng.random() < 0.5, 'aa': rng.random() < 0.5, 'pad': rng.choice([0, 1, 2, 2, 3]), 'drop': drop}
 
 
+def rnd_val(rng, dt):
+    lo, hi = DTYPES[dt]
+    if dt in ('uint8', 'uint16', 'int8') and rng.random() < 0.6:
+        span = max(1, (hi - lo) // 5)
+        return rng.randint(hi - span, hi) if rng.random() < 0.75 or lo == 0 else rng.randint(lo, lo + span)
+    return rng.randint(lo, hi)
+
+
+def rnd_arr_dt(rng, n, m, dt, nonneg=False):
+    a = [[rnd_val(rng, dt) for _ in range(m)] for _ in range(n)]
+    if nonneg:
+        a = [[abs(v) if v > -128 else 127 for v in row] for row in a]
+    return a
+
+
+def gen_dtypes(rng, n):
+    """every helper on every dtype an image or mask can have (values must not depend on the dtype), and on the
+    documented argument forms (array_like input as a nested list, shape / shift as list or ndarray, pad as int)"""
+    dts = list(DTYPES)
+    for k in range(n):
+        dt = dts[k % len(dts)]
+        t = rng.random()
+        if t < 0.4:
+            f = rng.randint(1, 4)
+            n_, m_ = f * rng.randint(1, 3), f * rng.randint(1, 3)
+            if rng.random() < 0.1:
+                n_ += 1
+            a = [rnd_arr_dt(rng, n_, m_, dt) for _ in range(rng.randint(1, 3))] if rng.random() < 0.4 \
+                else rnd_arr_dt(rng, n_, m_, dt)
+            yield {'op': 'rebin', 'a': a, 'f': f, 'dtype': dt}
+        elif t < 0.55:
+            n_, m_ = rng.randint(1, 6), rng.randint(1, 6)
+            a = [rnd_arr_dt(rng, n_, m_, dt) for _ in range(2)] if rng.random() < 0.3 else rnd_arr_dt(rng, n_, m_, dt)
+            yield {'op': 'pad', 'a': a, 'shape': [rng.randint(1, 8), rng.randint(1, 8)], 'dtype': dt}
+        elif t < 0.68:
+            n_, m_ = rng.randint(1, 6), rng.randint(1, 6)
+            yield {'op': 'subarray', 'a': rnd_arr_dt(rng, n_, m_, dt), 'shape': [rng.randint(0, n_), rng.randint(0, m_)],
+                   'shift': [rng.randint(-1, 1), rng.randint(-1, 1)], 'dtype': dt}
+        elif t < 0.84:
+            n_, m_ = rng.randint(1, 6), rng.randint(1, 6)
+            hi = DTYPES[dt][1]
+            a = [[(v and (hi if v % 2 else 1)) for v in row] for row in rnd_support(rng, n_, m_)]
+            if rng.random() < 0.5:
+                yield {'op': 'boundary', 'a': a, 'thr': '0', 'dtype': dt}
+            else:
+                pr = rng.randint(0, 2)
+                yield {'op': 'bslice', 'a': a, 'thr': '0', 'pad': [pr, pr], 'dtype': dt,
+                       'padform': 'int' if rng.random() < 0.5 else 'tuple'}
+        else:
+            n_, m_ = rng.randint(1, 5), rng.randint(1, 5)
+            if rng.random() < 0.35:
+                a = [[0] * m_ for _ in range(n_)]
+                a[rng.randrange(n_)][rng.randrange(m_)] = DTYPES[dt][1] if rng.random() < 0.5 else 1
+            else:
+                a = rnd_arr_dt(rng, n_, m_, dt, nonneg=True)
+                a[rng.randrange(n_)][rng.randrange(m_)] = 1
+            yield {'op': 'centroid', 'a': a, 'dtype': dt}
+    for k in range(max(8, n // 6)):
+        n_, m_ = rng.randint(2, 6), rng.randint(2, 6)
+        a = rnd_arr(rng, n_, m_, 0, 9)
+        a[0][0] += 1
+        form = {'form': 'list'} if k % 2 else {}
+        argf = {'argform': rng.choice(['list', 'array'])}
+        u = k % 5
+        if u == 0:
+            yield dict({'op': 'pad', 'a': a, 'shape': [rng.randint(1, 8), rng.randint(1, 8)]}, **form, **argf)
+        elif u == 1:
+            yield dict({'op': 'subarray', 'a': a, 'shape': [rng.randint(1, n_), rng.randint(1, m_)], 'shift': [0, 0]},
+                       **form, **argf)
+        elif u == 2:
+            yield dict({'op': 'boundary', 'a': a, 'thr': '3'}, **form)
+        elif u == 3:
+            yield dict({'op': 'centroid', 'a': a}, **form)
+        else:
+            yield dict({'op': 'rebin', 'a': [[v for v in row for _ in range(2)] for row in a for _ in range(2)], 'f': 2},
+                       **form)
+
+
+def rnd_draw(rng, kind, centred, rotated, aa=None):
+    shift = ['0', '0'] if centred else [str(rng.choice([-5, -4, -3, -2, 2, 3, 4, 6])), str(rng.choice([-4, -3, 0, 2, 3, 5]))]
+    if not centred and rng.random() < 0.25:
+        shift = [dy(rng, -3, 3), dy(rng, -3, 3)]
+    aa = (rng.random() < 0.5) if aa is None else aa
+    if kind == 'circle':
+        return {'kind': 'circle', 'radius': dy(rng, 1, 6), 'shift': shift, 'aa': aa}
+    if kind == 'rect':
+        return {'kind': 'rect', 'width': dy(rng, 1, 9), 'height': dy(rng, 1, 9), 'shift': shift,
+                'angle': rng.choice(['30', '45', '90', '-60', '37']) if rotated else '0', 'aa': aa}
+    return {'kind': 'hexagon', 'radius': dy(rng, 1, 6), 'shift': shift, 'rotate': rotated, 'aa': aa}
+
+
+def gen_histories(rng, n, maxn):
+    """2-4 draws in one interpreter state on the SAME array shape: every ordered pair of kinds with the first draw
+    centred/unrotated and the second shifted (state carried by a grid keyed on too little, or written in place,
+    shows up in the second), then random mixtures of centred / shifted, rotated / unrotated draws"""
+    kinds = ['rect', 'circle', 'hexagon']
+    pairs = [(a, b) for a in kinds for b in kinds]
+    for k in range(n):
+        shape = [rng.randint(9, maxn), rng.randint(9, maxn)]
+        if rng.random() < 0.3:
+            shape[1] = shape[0]
+        if k < 2 * len(pairs):
+            a, b = pairs[k % len(pairs)]
+            draws = [rnd_draw(rng, a, True, False), rnd_draw(rng, b, False, k >= len(pairs))]
+            if rng.random() < 0.5:
+                draws.append(rnd_draw(rng, rng.choice(kinds), rng.random() < 0.5, rng.random() < 0.5))
+        else:
+            draws = [rnd_draw(rng, rng.choice(kinds), rng.random() < 0.5, rng.random() < 0.4)
+                     for _ in range(rng.randint(2, 4))]
+            if rng.random() < 0.4:       # the same draw twice, one argument varied
+                d = dict(draws[0])
+                d['shift'] = [str(rng.randint(-3, 3)), str(rng.randint(1, 4))]
+                draws.append(d)
+        yield {'op': 'shist', 'shape': shape, 'draws': draws}
+
+
 def generate(rng, tier):
     if tier == 'quick':
         yield from gen_geometry_random(rng, 700)
+        yield from gen_dtypes(rng, 210)
         yield from gen_shapes(rng, 150, 16)
+        yield from gen_histories(rng, 40, 20)
         yield from gen_hexseg(rng, 14, 3)
     else:
         yield from gen_geometry_random(rng, 4000)
         yield from gen_geometry_exhaustive()
+        yield from gen_dtypes(rng, 2100)
         yield from gen_shapes(rng, 900, 24)
+        yield from gen_histories(rng, 300, 24)
         yield from gen_hexseg(rng, 60, 5)
 
 
 def classify(c):
     op = c['op']
     if op in ('pad', 'rebin') and is3(c['a']):
-        return op + '3'
+        op = op + '3'
+    if c.get('dtype'):
+        return f'{op}:{c["dtype"]}'
+    if c.get('form') or c.get('argform'):
+        return f'{op}:argform'
     return op
 
 
@@ -345,6 +512,8 @@ def nontrivial(c):
         return c['f'] > 1
     if op in ('circle', 'rect', 'hexagon'):
         return c['shift'] != ['0', '0'] or c.get('angle', '0') != '0' or c['shape'][0] != c['shape'][1]
+    if op == 'shist':
+        return len(c['draws']) > 1
     return True
 
 
@@ -373,24 +542,34 @@ def encode(c):
         if is3(c['a']):
             return [11] + enc_cube(c['a']) + [c['f']]
         return [10] + enc_arr(c['a']) + [c['f']]
-    if op == 'circle':
-        return [20] + list(c['shape']) + C.enc_q(Fraction(c['radius'])) + C.enc_q(Fraction(c['shift'][0])) + \
-            C.enc_q(Fraction(c['shift'][1])) + [int(c['aa'])]
-    if op == 'rect':
-        co, si = rot_params(c['angle'])
-        return [21] + list(c['shape']) + C.enc_q(Fraction(c['width'])) + C.enc_q(Fraction(c['height'])) + \
-            C.enc_q(Fraction(c['shift'][0])) + C.enc_q(Fraction(c['shift'][1])) + C.enc_q(co) + C.enc_q(si) + [int(c['aa'])]
-    if op == 'hexagon':
-        ns = hex_normals(c['rotate'])
-        e = [22] + list(c['shape']) + C.enc_q(Fraction(c['radius'])) + C.enc_q(float(np.sqrt(3))) + \
-            C.enc_q(Fraction(c['shift'][0])) + C.enc_q(Fraction(c['shift'][1])) + [len(ns)]
-        for sn, cs in ns:
-            e += C.enc_q(sn) + C.enc_q(cs)
-        return e + [int(c['aa'])]
+    if op in ('circle', 'rect', 'hexagon'):
+        return [{'circle': 20, 'rect': 21, 'hexagon': 22}[op]] + list(c['shape']) + enc_draw(c)
+    if op == 'shist':
+        e = [24] + list(c['shape']) + [len(c['draws'])]
+        for d in c['draws']:
+            e += [{'circle': 0, 'rect': 1, 'hexagon': 2}[d['kind']]] + enc_draw(draw_case(c, d))
+        return e
     if op == 'hexseg':
         return [23, c['rings'], c['pad']] + C.enc_q(Fraction(c['radius'])) + C.enc_q(Fraction(c['gap'])) + \
             C.enc_q(float(np.sqrt(3))) + [int(c['rotate']), len(c['drop'])] + list(c['drop'])
     raise ValueError(op)
+
+
+def enc_draw(c):
+    """parameters of one drawing call (without op code and array shape)"""
+    op = c['op']
+    sh = C.enc_q(Fraction(c['shift'][0])) + C.enc_q(Fraction(c['shift'][1]))
+    if op == 'circle':
+        return C.enc_q(Fraction(c['radius'])) + sh + [int(c['aa'])]
+    if op == 'rect':
+        co, si = rot_params(c['angle'])
+        return C.enc_q(Fraction(c['width'])) + C.enc_q(Fraction(c['height'])) + sh + C.enc_q(co) + C.enc_q(si) + \
+            [int(c['aa'])]
+    ns = hex_normals(c['rotate'])
+    e = C.enc_q(Fraction(c['radius'])) + C.enc_q(float(np.sqrt(3))) + sh + [len(ns)]
+    for sn, cs in ns:
+        e += C.enc_q(sn) + C.enc_q(cs)
+    return e + [int(c['aa'])]
 
 
 def rot_params(angle):
@@ -428,6 +607,8 @@ def decode(c, ints):
         return {'rc': [rd.q(), rd.q()]}
     if op in ('circle', 'rect', 'hexagon'):
         return {'arr': flt(read_arrq(rd))}
+    if op == 'shist':
+        return {'arrs': rd.lst(lambda: flt(read_arrq(rd)))}
     if op == 'hexseg':
         size = rd.z()
         segs = rd.lst(lambda: [rd.z(), rd.q(), rd.q()])
@@ -441,31 +622,36 @@ def run_impl(c):
     op = c['op']
     try:
         if op == 'pad':
-            a = nparr(c['a'])
-            res = lentil.pad(a, tuple(c['shape']))
-            out = {'arr': tolist(res), 'shape': list(res.shape)}
-            sh = a.shape[-2:]
+            a = mk_input(c)
+            res = lentil.pad(a, seq_arg(c, c['shape']))
+            out = {'arr': tolist(res), 'shape': list(res.shape), 'mutated': not unchanged(a, c)}
+            sh = shape_of(c['a'])[-2:]
             if c['shape'][0] >= sh[0] and c['shape'][1] >= sh[1]:
                 out['back'] = tolist(lentil.pad(res, sh))
             return out
         if op == 'subarray':
-            res = lentil.subarray(nparr(c['a']), tuple(c['shape']), tuple(c['shift']))
-            return {'arr': tolist(res), 'shape': list(res.shape)}
+            a = mk_input(c)
+            res = lentil.subarray(a, seq_arg(c, c['shape']), seq_arg(c, c['shift']))
+            return {'arr': tolist(res), 'shape': list(res.shape), 'mutated': not unchanged(a, c)}
         if op == 'window':
-            res = lentil.window(nparr(c['a']), shape=None if c['shape'] is None else tuple(c['shape']),
-                                slice=None if c['slice'] is None else tuple(c['slice']))
-            return {'arr': tolist(res), 'shape': list(res.shape)}
+            a = mk_input(c)
+            res = lentil.window(a, shape=None if c['shape'] is None else seq_arg(c, c['shape']),
+                                slice=None if c['slice'] is None else seq_arg(c, c['slice']))
+            return {'arr': tolist(res), 'shape': list(np.shape(res)), 'mutated': not unchanged(a, c)}
         if op == 'boundary':
-            res = lentil.boundary(nparr(c['a']), float(Fraction(c['thr'])))
-            return {'box': [int(v) for v in res]}
+            a = mk_input(c)
+            res = lentil.boundary(a, float(Fraction(c['thr'])))
+            return {'box': [int(v) for v in res], 'mutated': not unchanged(a, c)}
         if op == 'bslice':
-            x = nparr(c['a'])
-            s = lentil.helper.boundary_slice(x, float(Fraction(c['thr'])), tuple(c['pad']))
+            x = nparr(c['a'], c.get('dtype'))
+            padarg = c['pad'][0] if c.get('padform') == 'int' else tuple(c['pad'])
+            s = lentil.helper.boundary_slice(x, float(Fraction(c['thr'])), padarg)
             off = lentil.helper.slice_offset(s, x.shape)
             sub = x[s]
             ext = lentil.extent.array_extent(sub.shape, off)
             return {'slice': [int(s[0].start), int(s[0].stop), int(s[1].start), int(s[1].stop)],
-                    'offset': [int(off[0]), int(off[1])], 'sub': tolist(sub), 'extent': [int(v) for v in ext]}
+                    'offset': [int(off[0]), int(off[1])], 'sub': tolist(sub), 'extent': [int(v) for v in ext],
+                    'mutated': not unchanged(x, c)}
         if op == 'soff':
             s = c['slice']
             off = lentil.helper.slice_offset((slice(s[0], s[1]), slice(s[2], s[3])), tuple(c['shape']))
@@ -474,11 +660,16 @@ def run_impl(c):
             off = lentil.helper.slice_offset(Ellipsis, tuple(c['shape']))
             return {'offset': [int(off[0]), int(off[1])]}
         if op == 'centroid':
-            r, cc = lentil.centroid(nparr(c['a']))
-            return {'rc': [float(r), float(cc)]}
+            a = mk_input(c)
+            r, cc = lentil.centroid(a)
+            return {'rc': [float(r), float(cc)], 'mutated': not unchanged(a, c)}
         if op == 'rebin':
-            res = lentil.rebin(nparr(c['a']), c['f'])
-            return {'arr': tolist(res), 'shape': list(res.shape)}
+            a = mk_input(c)
+            res = lentil.rebin(a, c['f'])
+            return {'arr': tolist(res), 'shape': list(res.shape), 'mutated': not unchanged(a, c),
+                    'out_dtype': str(res.dtype)}
+        if op == 'shist':
+            return run_history(c)
         if op in ('circle', 'rect', 'hexagon'):
             sh = (float(Fraction(c['shift'][0])), float(Fraction(c['shift'][1])))
             sh2 = (sh[0] + c['d'][0], sh[1] + c['d'][1])
@@ -501,6 +692,30 @@ def run_impl(c):
     except Exception as e:
         return {'err': type(e).__name__}
     raise ValueError(op)
+
+
+def draw_case(c, d):
+    return dict(d, op=d['kind'], shape=c['shape'])
+
+
+def int_shift(d):
+    sh = [Fraction(v) for v in d['shift']]
+    return all(v.denominator == 1 for v in sh) and any(v != 0 for v in sh)
+
+
+def run_history(c):
+    """the draws of the case in ONE interpreter state, one after the other; then every draw again as the
+    first call of a fresh state; then, for integer shifts, the centred version of the draw in a fresh state"""
+    draws = [draw_case(c, d) for d in c['draws']]
+    shifts = [(float(Fraction(d['shift'][0])), float(Fraction(d['shift'][1]))) for d in draws]
+    lentil = fresh_lentil()
+    hist = [tolist(draw(lentil, d, sh)) for d, sh in zip(draws, shifts)]
+    fresh, centred = [], []
+    for d, sh in zip(draws, shifts):
+        fresh.append(tolist(draw(fresh_lentil(), d, sh)))
+        centred.append(tolist(draw(fresh_lentil(), d, (0.0, 0.0))) if int_shift(d) else None)
+    fresh_lentil()
+    return {'hist': hist, 'fresh': fresh, 'centred': centred}
 
 
 class Blob:
@@ -582,18 +797,22 @@ def compare(c, impl, model):
     if op in ('soff', 'soff_ell'):
         return None if impl['offset'] == model['offset'] else f'slice_offset: impl {impl["offset"]} model {model["offset"]}'
     if op == 'centroid':
+        tol = centroid_tol(c)
         for x, y in zip(impl['rc'], model['rc']):
-            if abs(x - float(y)) > 1e-12 * (1 + abs(float(y))):
+            if not abs(x - float(y)) <= tol * (1 + abs(float(y))):
                 return f'centroid: impl {impl["rc"]} model {[str(v) for v in model["rc"]]}'
         return None
     if op in ('circle', 'rect', 'hexagon'):
-        sh = (float(Fraction(c['shift'][0])), float(Fraction(c['shift'][1])))
-        exact = op == 'circle' and not c['aa'] or (op == 'rect' and Fraction(c['angle']) == 0)
-        if exact:
-            msg = None if impl['arr'] == model['arr'] else close_arrays(impl['arr'], model['arr'], True, None, 0.0)
-        else:
-            msg = close_arrays(impl['arr'], model['arr'], c['aa'], edge_margin(c, c['shape'], sh))
+        msg = cmp_draw(c, impl['arr'], model['arr'])
         return None if msg is None else f'{op}: impl vs model: {msg}'
+    if op == 'shist':
+        if len(model['arrs']) != len(c['draws']):
+            return 'history: model returned a different number of drawings'
+        for k, d in enumerate(c['draws']):
+            msg = cmp_draw(draw_case(c, d), impl['hist'][k], model['arrs'][k])
+            if msg:
+                return f'history: draw {k} ({d["kind"]}) impl vs model: {msg}'
+        return None
     if op == 'hexseg':
         lentil = C.import_lentil()
         m = impl['_mask'].a
@@ -611,6 +830,20 @@ def compare(c, impl, model):
                 return f'hex_segments: mask {idx} is not hexagon(shift of segment {seg} = {sh}): {msg}'
         return None
     raise ValueError(op)
+
+
+def centroid_tol(c):
+    # float32 data are divided in float32 by lentil.centroid (relative rounding 6e-8 per sample)
+    return 2e-6 if c.get('dtype') == 'float32' else 1e-12
+
+
+def cmp_draw(c, impl_arr, model_arr):
+    op = c['op']
+    sh = (float(Fraction(c['shift'][0])), float(Fraction(c['shift'][1])))
+    exact = op == 'circle' and not c['aa'] or (op == 'rect' and Fraction(c['angle']) == 0)
+    if exact:
+        return None if impl_arr == model_arr else close_arrays(impl_arr, model_arr, True, None, 0.0)
+    return close_arrays(impl_arr, model_arr, c['aa'], edge_margin(c, c['shape'], sh))
 
 
 # ------------------------------------------------------------------ direct property oracle (plain loops, no model)
@@ -636,6 +869,10 @@ def pad_oracle_2d(a, out, N, M):
 
 def oracle(c, impl):
     op = c['op']
+    if impl.get('mutated'):
+        return f'{op} modified the array it was given'
+    if op == 'shist':
+        return history_oracle(c, impl)
     if op == 'pad':
         if 'err' in impl:
             return f'pad raised {impl["err"]}'
@@ -750,8 +987,9 @@ def oracle(c, impl):
         if len(nz) == 1:
             return None if impl['rc'] == [float(nz[0][0]), float(nz[0][1])] else \
                 f'centroid of an impulse at {nz[0]} is {impl["rc"]}'
-        ok = abs(impl['rc'][0] - float(r)) <= 1e-12 * (1 + abs(float(r))) and \
-            abs(impl['rc'][1] - float(cc)) <= 1e-12 * (1 + abs(float(cc)))
+        tol = centroid_tol(c)
+        ok = abs(impl['rc'][0] - float(r)) <= tol * (1 + abs(float(r))) and \
+            abs(impl['rc'][1] - float(cc)) <= tol * (1 + abs(float(cc)))
         return None if ok else f'centroid {impl["rc"]} is not ({r}, {cc})'
     if op == 'rebin':
         a = c['a']
@@ -769,7 +1007,9 @@ def oracle(c, impl):
             if len(o) != n // f or len(o[0]) != m // f:
                 return f'rebinned shape is not ({n // f}, {m // f})'
             if sum(v for row in o for v in row) != sum(v for row in sl for v in row):
-                return 'rebin does not preserve the sum'
+                return (f'rebin does not preserve the sum: {sum(v for row in sl for v in row)} -> '
+                        f'{sum(v for row in o for v in row)} (input dtype {c.get("dtype", "float64")}, '
+                        f'result dtype {impl.get("out_dtype")})')
             for i in range(n // f):
                 for j in range(m // f):
                     if o[i][j] != sum(sl[i * f + u][j * f + v] for u in range(f) for v in range(f)):
@@ -831,6 +1071,45 @@ def shape_oracle(c, impl):
     return None
 
 
+def history_oracle(c, impl):
+    if 'err' in impl:
+        return f'drawing history raised {impl["err"]}'
+    n, m = c['shape']
+    for k, d in enumerate(c['draws']):
+        a = impl['hist'][k]
+        what = f'draw {k} ({d["kind"]}, shift {d["shift"]}) after {[x["kind"] for x in c["draws"][:k]]}'
+        for i in range(n):
+            for j in range(m):
+                v = a[i][j]
+                if not (0.0 <= v <= 1.0):
+                    return f'{what}: value {v!r} at ({i},{j}) outside [0, 1]'
+                if not d['aa'] and v not in (0.0, 1.0):
+                    return f'{what}: non-binary value {v!r} at ({i},{j}) without antialiasing'
+        # exact translation: the drawing with the integer shift s is the centred drawing moved by s samples
+        z = impl['centred'][k]
+        if z is not None:
+            s0, s1 = int(Fraction(d['shift'][0])), int(Fraction(d['shift'][1]))
+            for i in range(n):
+                for j in range(m):
+                    if 0 <= i + s0 < n and 0 <= j + s1 < m and a[i + s0][j + s1] != z[i][j]:
+                        return (f'{what}: is not the translate by ({s0},{s1}) of the centred drawing: sample '
+                                f'({i + s0},{j + s1}) = {a[i + s0][j + s1]!r}, centred sample ({i},{j}) = {z[i][j]!r}')
+        if a != impl['fresh'][k]:
+            bad = [(i, j) for i in range(n) for j in range(m) if a[i][j] != impl['fresh'][k][i][j]][0]
+            return (f'{what}: differs from the same call made first in a fresh interpreter state at {bad}: '
+                    f'{a[bad[0]][bad[1]]!r} vs {impl["fresh"][k][bad[0]][bad[1]]!r}')
+    return None
+
+
+def cast_like(v, dt):
+    """value of the exact integer v after numpy casts it to the narrow dtype dt"""
+    if dt == 'bool':
+        return 1 if v else 0
+    bits = NARROW[dt]
+    w = v % (1 << bits)
+    return w - (1 << bits) if dt.startswith('int') and w >= (1 << (bits - 1)) else w
+
+
 def hexseg_expected_count(c):
     total = 1 + 3 * c['rings'] * (c['rings'] + 1)
     return total - len({d for d in c['drop'] if 0 <= d < total})
@@ -858,6 +1137,26 @@ def hexseg_oracle(c, impl):
 
 
 def known_match(f, c, impl):
+    if f['id'] == 'C20-rebin-cube-narrow-dtype':
+        # exactly: a CUBE of a narrow dtype whose result is the exact block sums cast back to that dtype,
+        # at least one of them not representable
+        if not (c['op'] == 'rebin' and is3(c['a']) and c.get('dtype') in NARROW and 'err' not in impl):
+            return False
+        fct, dt = c['f'], c['dtype']
+        n, m = len(c['a'][0]), len(c['a'][0][0])
+        if n % fct or m % fct or len(impl['arr']) != len(c['a']):
+            return False
+        lost = False
+        for sl, o in zip(c['a'], impl['arr']):
+            if len(o) != n // fct or (o and len(o[0]) != m // fct):
+                return False
+            for i in range(n // fct):
+                for j in range(m // fct):
+                    ex = sum(sl[i * fct + u][j * fct + v] for u in range(fct) for v in range(fct))
+                    if o[i][j] != cast_like(ex, dt):
+                        return False
+                    lost = lost or cast_like(ex, dt) != ex
+        return lost
     if f['id'] == 'C20-hex-gap0-shared-edge':
         return (c['op'] == 'hexseg' and Fraction(c['gap']) == 0 and 'err' not in impl and impl.get('overlap', 0) > 0
                 and len(impl['shape']) == 3 and impl['shape'][0] == hexseg_expected_count(c)
@@ -866,6 +1165,10 @@ def known_match(f, c, impl):
 
 
 def replay_known(f):
+    if f['id'] == 'C20-rebin-cube-narrow-dtype':
+        lentil = C.import_lentil()
+        out = lentil.rebin(np.full((1, 4, 4), 200, dtype=np.uint8), 2)
+        return int(np.asarray(out, dtype=float).sum()) != 3200
     if f['id'] == 'C20-hex-gap0-shared-edge':
         lentil = C.import_lentil()
         m = lentil.hex_segments(rings=1, seg_radius=8, seg_gap=0, antialias=False)
@@ -920,7 +1223,13 @@ _extra_before_src_layer = extra
 
 def extra(tier, rng):
     from .. import gen_src as G
-    base = _extra_before_src_layer(tier, rng)
+    try:
+        base = _extra_before_src_layer(tier, rng)
+    except Exception as e:          # keep the translation layer's verdict when the other checks cannot even run
+        import traceback
+        base = {'report': {'error': traceback.format_exc()[-800:]},
+                'violations': [{'case': None, 'impl': None,
+                                'what': f'extra: the checks preceding the translation layer raised {type(e).__name__}: {e}'}]}
     layer = G.run_layer('C20', ID, tier, rng, C)
     report = dict(base.get('report', {}))
     report['source_translation'] = layer['report']
